@@ -46,3 +46,22 @@ package replicator
 //@   props C19
 //@   ensures r.max == 0 && r.progress == 0
 //@   modifies r.max, r.progress
+
+// ---- C13: the unfinished queue saved with a snapshot ----
+// GetQueue never panics and returns exactly the hashes whose task is added or fetching, each once.
+//@ func (*replicator).GetQueue
+//@   props C13
+//@   requires r.queue != nil
+//@   loop 1 invariant forall j Int :: 0 <= j && j < len(fetching) ==> $seen[fetching[j]] && (fetching[j] in r.tasks) && r.tasks[fetching[j]] != stateFetched
+//@   loop 1 invariant forall c V_cid_Cid :: $seen[c] && r.tasks[c] != stateFetched ==> (exists j Int :: 0 <= j && j < len(fetching) && fetching[j] == c)
+//@   loop 1 invariant forall i Int, j Int :: 0 <= i && i < j && j < len(fetching) ==> fetching[i] != fetching[j]
+//@   ensures forall j Int :: 0 <= j && j < len(result) ==> (result[j] in r.tasks) && r.tasks[result[j]] != stateFetched
+//@   ensures forall c V_cid_Cid :: (c in r.tasks) && r.tasks[c] != stateFetched ==> (exists j Int :: 0 <= j && j < len(result) && result[j] == c)
+//@   ensures forall i Int, j Int :: 0 <= i && i < j && j < len(result) ==> result[i] != result[j]
+//@   modifies nothing
+
+// ---- Replicator interface (as seen by the store) ----
+// Load dereferences every element (e.GetHash()): the list must hold defined entries only.
+//@ extern (berty.tech/go-orbit-db/stores/replicator.Replicator).Load as (r).Load(ctx, heads)
+//@   requires forall i Int :: 0 <= i && i < len(heads) ==> heads[i] != nil && ref(heads[i]) != 0
+//@   modifies *
